@@ -51,6 +51,9 @@ func (g *Gen) call(fr *frame, st *State, site ssa.Instruction, cc *ssa.CallCommo
 				}
 			}
 			if key == "" {
+				if g.fc != nil && g.fc.OpaqueCalls {
+					return g.opaqueCall(fr, st, "call through function value "+exprOr(fr.text[cc.Value], cc.Value.Name()), rt)
+				}
 				g.errorf("%s: call through function value %s (no funcfield binding)", funcKey(fr.fn), exprOr(fr.text[cc.Value], cc.Value.Name()))
 				return g.freshValue(st, "dyncall", rt)
 			}
@@ -214,7 +217,7 @@ func (g *Gen) applyContract(fr *frame, st *State, fc *FuncContract, key string, 
 		g.addOblig(st, "pre", fmt.Sprintf("pre.%s.%s", siteTag, clauseName(c, i)), t, c.Src)
 		g.assume(st, t)
 	}
-	if g.panicsNever && !fc.PanicsNever && !fc.Trusted && !fc.IsLib {
+	if g.panicsNever && !g.ownOnly && !fc.PanicsNever && !fc.Trusted && !fc.IsLib {
 		g.addOblig(st, "safety", g.safetyName("callee-may-panic", shortKey(key)), "false", "callee is not proved panic-free")
 	} else if !g.panicsNever && g.fc != nil && len(g.fc.PanicOnlyWhen) > 0 && !fc.PanicsNever && !fc.IsLib {
 		g.maybePanic(fr, st, "callee-may-panic", shortKey(key))
@@ -400,14 +403,17 @@ func (g *Gen) havocTarget(env *Env, st *State, m Expr) error {
 			return nil
 		}
 		if x.Name == "heap" {
+			saved := g.savePrivate(st)
+			stable := g.stableComps()
 			for _, k := range sortedKeys(g.compSort) {
-				if strings.HasPrefix(k, "G|") {
+				if strings.HasPrefix(k, "G|") || stable[k] {
 					continue
 				}
 				st.comps[k] = g.fresh("hv.C."+k, g.compSort[k])
 				g.logWrite(k, "")
 			}
 			g.havocAllLater = true
+			g.restorePrivate(st, saved)
 			return nil
 		}
 		return fmt.Errorf("cannot modify %s", x.Name)
@@ -1032,6 +1038,7 @@ func (g *Gen) opaqueCall(fr *frame, st *State, key string, rt types.Type) *Value
 	g.trusted["opaque "+shortKey(key)] = true
 	g.note("opaque callees are assumed not to lock or unlock the mutexes tracked by this function")
 	g.maybePanic(fr, st, "opaque-callee-may-panic", shortKey(key))
+	saved := g.savePrivate(st)
 	stable := g.stableComps()
 	for _, k := range sortedKeys(g.compSort) {
 		if strings.HasPrefix(k, "G|") || strings.HasPrefix(k, "CHN|") || strings.HasPrefix(k, "CHD|") || stable[k] {
@@ -1040,6 +1047,7 @@ func (g *Gen) opaqueCall(fr *frame, st *State, key string, rt types.Type) *Value
 		st.comps[k] = g.fresh("hv.C."+k, g.compSort[k])
 		g.logWrite(k, "")
 	}
+	g.restorePrivate(st, saved)
 	na := g.fresh("alloc", sInt)
 	g.addCons(fmt.Sprintf("(>= %s %s)", na, st.alloc))
 	st.alloc = na
@@ -1049,10 +1057,28 @@ func (g *Gen) opaqueCall(fr *frame, st *State, key string, rt types.Type) *Value
 	return g.freshValue(st, "r."+shortName(key), rt)
 }
 
+// savePrivate / restorePrivate keep the contents of closure-captured locals across a heap havoc:
+// no callee can reach them.
+func (g *Gen) savePrivate(st *State) []*Value {
+	var out []*Value
+	for _, lv := range g.privBoxes {
+		out = append(out, g.load(st, lv))
+	}
+	return out
+}
+
+func (g *Gen) restorePrivate(st *State, saved []*Value) {
+	for i, lv := range g.privBoxes {
+		if i < len(saved) {
+			g.store(st, lv, saved[i])
+		}
+	}
+}
+
 // maybePanic: the current point may panic (for reasons the verifier cannot see). Acceptable unless the
 // function is panics_never or restricts where panics may happen.
 func (g *Gen) maybePanic(fr *frame, st *State, kind, what string) {
-	if g.fc == nil || (!g.panicsNever && len(g.fc.PanicOnlyWhen) == 0) {
+	if g.fc == nil || g.ownOnly || (!g.panicsNever && len(g.fc.PanicOnlyWhen) == 0) {
 		return
 	}
 	goal := "false"
